@@ -62,7 +62,7 @@ type Contract struct {
 	Skolems    []*SpecFun // `skolem f(S1, S2) R`: a function symbol that is fresh at every call site (existential witness)
 }
 
-var reWhere = regexp.MustCompile(` where arg(\d+) is "([^"]*)" `)
+var reWhere = regexp.MustCompile(` where arg(\d+) is "((?:[^"\\]|\\.)*)" `)
 
 var reFuncHdr = regexp.MustCompile(`^(func|iface|closure)\s+(\([^)]*\)\s*)?([^\s(]+)\s*(\([^)]*\))?\s*(\([^)]*\))?\s*$`)
 
@@ -345,7 +345,7 @@ func (cs *ContractSet) parseContractLines(file, pkgPath string, lines []string, 
 			whereArg, whereLit := -1, ""
 			if m := reWhere.FindStringSubmatch(rest); m != nil {
 				whereArg, _ = strconv.Atoi(m[1])
-				whereLit = m[2]
+				whereLit = strings.NewReplacer(`\"`, `"`, `\\`, `\`).Replace(m[2])
 				rest = strings.Replace(rest, m[0], " ", 1)
 			}
 			f := strings.Fields(rest)
